@@ -1,6 +1,7 @@
 package main
 
 import (
+	"bytes"
 	"reflect"
 
 	"github.com/datastax/go-cassandra-native-protocol/datacodec"
@@ -218,7 +219,59 @@ func (wk *worker) dcUnit(block int) {
 // dcMismatch: destination-type mismatch matrix: the valid bytes of case A decoded with the codec
 // of case B (every ordered pair of a pool of random container cases and scalar-table cases) into
 // *interface{} and B's universal representation.
+// scalarMatrix: every scalar codec x every documented Go representation of the kind (plain and
+// through a pointer) x short inputs of the natural lengths in five patterns (zeros, ones, NaN-like
+// 7ff8..01, sign bit only, biased random).
+func (wk *worker) scalarMatrix() {
+	r := mon.NewRand(wk.seed, utag(tagMis, 0xFFFF, 0))
+	var inputs [][]byte
+	for _, n := range []int{0, 1, 2, 3, 4, 7, 8, 9, 12, 16, 17, 20} {
+		z := make([]byte, n)
+		f := bytes.Repeat([]byte{0xFF}, n)
+		nan := make([]byte, n)
+		sign := make([]byte, n)
+		if n > 0 {
+			nan[0], nan[n-1], sign[0] = 0x7F, 0x01, 0x80
+		}
+		if n > 1 {
+			nan[1] = 0xF8
+		}
+		inputs = append(inputs, z, f, nan, sign, biasedBytes(r, n))
+	}
+	for _, k := range cqlref.ScalarKinds() {
+		t := cqlref.Scalar(k)
+		if k == cqlref.Custom {
+			t = cqlref.NewCustom("c.C")
+		}
+		var codec datacodec.Codec
+		if !safely(func() {
+			var err error
+			if codec, _, err = cqlgen.Codec(t); err != nil {
+				panic(err)
+			}
+		}) {
+			continue
+		}
+		var dests []dcDest
+		for _, base := range cqlgen.ScalarReprs(k) {
+			for _, rep := range []*cqlgen.Repr{base, cqlgen.Ptr(base)} {
+				rep := rep
+				if safely(func() { cqlgen.TopDest(rep) }) {
+					dests = append(dests, dcDest{name: "scalar-table:" + rep.String(), mk: func() interface{} { d, _, _ := cqlgen.TopDest(rep); return d }})
+				}
+			}
+		}
+		dests = append(dests, dcDest{name: "*interface{}", mk: func() interface{} { return new(interface{}) }})
+		for i, in := range inputs {
+			wk.dcExec(codec, t, "scalar-matrix/"+k.String(), dests, in, mut{Class: mcSpecial, O: i}, dcVersions[1:2])
+		}
+	}
+}
+
 func (wk *worker) dcMismatch(block int) {
+	if block == 0 {
+		wk.scalarMatrix()
+	}
 	pl := wk.plan()
 	p := wk.dcplan()
 	type ent struct {
